@@ -442,15 +442,15 @@ impl Check for C11 {
                     let unmerged = case.used.contains_key("inter_unmerged_or_named");
                     // types spelled with Exclude are re-materialised from the semantic engine and inherit its listed
                     // findings (here typically `{}` absorbing the other object members of a union)
-                    let plain = if case.used.contains_key("exclude") { "c11_strict_membership:program_uses_exclude" } else { "c11_strict_membership" };
-                    let sig = match explain(&case.env, d, v, Mode::Strict, g_strict) {
+                    let plain: Vec<String> = if case.used.contains_key("exclude") { crate::csem::engine_family_sigs("c11_strict_membership", &case.env, d, Some(v)) } else { vec!["c11_strict_membership".to_string()] };
+                    let sigs: Vec<String> = match explain(&case.env, d, v, Mode::Strict, g_strict) {
                         Some("strict_inter_per_member") if !unmerged => plain,
-                        Some(q) => q,
+                        Some(q) => vec![q.to_string()],
                         None => plain,
                     };
-                    out.mismatch(
+                    out.mismatch_any(
                         ctx,
-                        sig,
+                        &sigs,
                         format!("{}: strict mode {} a value that {} undeclared keys", name, if g_strict { "accepts" } else { "rejects" }, if g_strict { "carries" } else { "has no" }),
                         json!({"program": case.program, "parser": name, "type": d, "value": v, "strict_validate": g_strict, "default_validate": g_open, "reference_strict": format!("{:?}", e_strict)}),
                     );
